@@ -58,7 +58,9 @@ func ConfigExtra(tier string, shard, of int) ExtraResult {
 								defer func() { perr = recover() }()
 								sc := &replica.Script{Name: "cfg", Cfg: cfg, Blocks: ScriptTies().Blocks[:3]}
 								sc.Blocks = append(sc.Blocks, replica.Block{Txs: []replica.TxSpec{
-									fx("removev(S4)", func(w *world.World) sdk.Msg { return &nodetypes.MsgRemoveVstorage{Creator: w.A(world.S4).S(), Size_: 1_000_000} }),
+									fx("removev(S4)", func(w *world.World) sdk.Msg {
+										return &nodetypes.MsgRemoveVstorage{Creator: w.A(world.S4).S(), Size_: 1_000_000}
+									}),
 									fx("claim(S1)", func(w *world.World) sdk.Msg { return &nodetypes.MsgClaimReward{Creator: w.A(world.S1).S()} }),
 								}, SkipTo: 14})
 								w, hh := replica.RunBlocks(sc, len(sc.Blocks))
